@@ -350,7 +350,10 @@ def read_headers(sock: socket.socket) -> tuple:
 
     while True:
         line = recv_line(sock)
-        line = line.decode("utf-8").strip()
+        try:
+            line = line.decode("utf-8").strip()
+        except UnicodeDecodeError:
+            raise WebSocketException("Invalid header encoding")
         if not line:
             break
         trace(line)
